@@ -449,17 +449,21 @@ def build(ctx, san=False):
             dict(srcs=[os.path.join(H, "impl.cc")], out=ctx.path("impl_chk"), opt="-O1", flags=["-I" + H, "-DDUNE_FMatrix_WITH_CHECKING"])]
     if san:
         jobs.append(dict(srcs=[os.path.join(H, "impl.cc")], out=ctx.path("impl_san"), san=True, flags=["-I" + H]))
-    jobs.append(sc("scale", "-O2", []))
-    outs = V.cxx_many(ctx, jobs)                       # at most 4 compilers at a time
+    # all translation units are independent: one pool (the impl drivers first, callers index them from the front)
+    jobs += [sc("scale", "-O2", []),
+             dict(srcs=[os.path.join(H, "simd.cc")], out=ctx.path("simd"), opt="-O1", flags=["-I" + H]),
+             sc("scale_chk", "-O1", ["-DDUNE_FMatrix_WITH_CHECKING"])]
+    from concurrent.futures import ThreadPoolExecutor
     deep = None
-    o2 = V.cxx_many(ctx, [dict(srcs=[os.path.join(H, "simd.cc")], out=ctx.path("simd"), opt="-O1", flags=["-I" + H]),
-                          sc("scale_chk", "-O1", ["-DDUNE_FMatrix_WITH_CHECKING"])])
-    ctx.simd_exe = o2[0]
-    ctx.scale_exes = [outs[-1], o2[1]]
-    try:
-        deep = V.cxx(ctx, [os.path.join(H, "deep.cc")], ctx.path("deep"), opt="-O1", flags=["-I" + H])
-    except V.BuildError as e:
-        ctx.notes.append("deep harness (luDecomposition internals) does not compile against this tree: deep stream skipped")
+    with ThreadPoolExecutor(max_workers=1) as ex:
+        fdeep = ex.submit(V.cxx, ctx, [os.path.join(H, "deep.cc")], ctx.path("deep"), opt="-O1", flags=["-I" + H])
+        outs = V.cxx_many(ctx, jobs)
+        ctx.simd_exe = outs[-2]
+        ctx.scale_exes = [outs[-3], outs[-1]]
+        try:
+            deep = fdeep.result()
+        except V.BuildError as e:
+            ctx.notes.append("deep harness (luDecomposition internals) does not compile against this tree: deep stream skipped")
     return outs, deep
 
 
